@@ -33,7 +33,7 @@ ASSUMPTIONS = [
     "lists with repeated labels are only combined with scalar right-hand sides (NumPy leaves the winner unspecified otherwise)",
     "cast=False is exercised only where NumPy assignment is loss-free (same kind, int into float)",
 ]
-MANDATORY = ["idx:slice-bounding-box", "idx:slice-bounding-box-on-one-label", "rhs:scalar", "rhs:full", "rhs:bcast", "spelling:put-copy", "idx:mask", "idx:list", "idx:slice", "idx:scalar",
+MANDATORY = ["rhs:python-list", "rhs:numbers-and-strings", "idx:slice-bounding-box", "idx:slice-bounding-box-on-one-label", "rhs:scalar", "rhs:full", "rhs:bcast", "spelling:put-copy", "idx:mask", "idx:list", "idx:slice", "idx:scalar",
              "nd-mask", "cast:kind-changing", "partial-write", "absent->IndexError", "position"]
 
 
@@ -51,6 +51,11 @@ def rhs_values(rk, n, base):
         return np.arange(n, dtype=int) + 1000 + base
     if rk == "b":
         return (np.arange(n) + base) % 2 == 0
+    if rk == "m":       # numbers and strings side by side (an object array, or a plain Python list of them)
+        out = np.empty(n, dtype=object)
+        for k in range(n):
+            out[k] = ("w%03d" % (base + k)) if k % 2 else (1000.25 + base + k if k % 4 else 1000 + base + k)
+        return out
     return np.array(["w%03d" % (base + k) for k in range(n)], dtype=object)
 
 
@@ -112,13 +117,15 @@ def assign_case(draw):
     cast = draw(st.sampled_from([False, False, True]))
     rk = vk
     if cast:
-        rk = draw(st.sampled_from(["f", "i", "b", "s"]))
+        rk = draw(st.sampled_from(["f", "i", "b", "s", "m"]))
+    elif vk == "s" and draw(st.integers(0, 2)) == 0:
+        rk = "m"
     elif vk == "f" and draw(st.booleans()):
         rk = "i"
     if shape_kind == "0d" and (vk == "s" or rk != vk):
         shape_kind = "scalar"   # a 0-d ndarray stored into an object array stays a 0-d ndarray (NumPy), not a scalar
     return {"mode": "assign", "spec": spec, "lidx": lidx, "pidx": pidx, "rhs": {"rk": rk, "shape": shape_kind, "base": draw(st.integers(0, 9)),
-            "bdim": draw(st.integers(0, 3))}, "cast": cast}
+            "bdim": draw(st.integers(0, 3)), "as": draw(st.sampled_from(["ndarray", "ndarray", "list"]))}, "cast": cast}
 
 
 @st.composite
@@ -288,6 +295,11 @@ def run_assign(case):
             kept_shape = tuple(len(p) for kind, p in per if kind != "scalar")
             rhs = _make_rhs(case["rhs"], kept_shape)
             exp, written = _expected_after(vals, per, rhs, cast)
+            if case["rhs"].get("as") == "list" and isinstance(rhs, np.ndarray) and rhs.ndim >= 1 and rhs.size:      # (an empty nested list cannot carry a shape)
+                rhs = rhs.tolist()          # the same values handed over as (nested) Python lists
+                cl.add("rhs:python-list")
+            if case["rhs"]["rk"] == "m":
+                cl.add("rhs:numbers-and-strings")
         else:
             rhs = _make_rhs(dict(case["rhs"], shape="scalar"), ())
         kw = {"cast": True} if cast else {}
